@@ -120,7 +120,7 @@ def main():
             "guard": "--cfg mwlon_quantile_compression_verif",
             "enable": "the harness is built with RUSTFLAGS='--cfg mwlon_quantile_compression_verif' (tools/qco/common.py build_harness); this compiles q_compress/src/verif.rs, an add-only module of public wrappers that run operation scripts on the crate-private BitWords/BitReader/BitWriter; every other observable is public API. Without the flag the module does not exist and the library is unchanged.",
             "baseline_off_cmd": "cd /repo && cargo test --workspace --no-fail-fast --offline",
-            "source_commits": ["c2fc263", "dfa6be0"],
+            "source_commits": ["c2fc263", "dfa6be0", "365a071"],
             "add_only": True,
         },
         "engines": [{
